@@ -11,6 +11,7 @@ Fractions: P(scene), P(iterations = k, scene), P(rejection).
 """
 
 import hashlib
+import signal
 import json
 from fractions import Fraction
 
@@ -68,6 +69,17 @@ def scene_outcome(prog, scene, iterations):
     return ("scene", iterations, tuple(params), tuple(cells))
 
 
+HANG_SECONDS = 30
+
+
+class GenerationHang(BaseException):  # not an Exception: nothing in the sampler may swallow it
+    pass
+
+
+def _hang(signum, frame):
+    raise GenerationHang()
+
+
 def impl_law(prog, scenario, m):
     from scenic.core.distributions import RejectionException
 
@@ -78,14 +90,24 @@ def impl_law(prog, scenario, m):
     clock = seams.SimClock(lambda n: 1e-3 * (1 + n % 3))
 
     def execute():
+        # the rejection loop must end after at most m attempts: a wall-clock guard turns a
+        # loop that never ends into an outcome instead of a killed worker
+        signal.signal(signal.SIGALRM, _hang)
+        signal.setitimer(signal.ITIMER_REAL, HANG_SECONDS, 5)
         try:
             scene, its = scenario._generateInner(m, 0, None)
         except RejectionException:
             return ("reject",)
+        finally:
+            signal.setitimer(signal.ITIMER_REAL, 0)
         return scene_outcome(prog, scene, its)
 
     with seams.patched_clock(clock):
-        for out, p, rng in seams.walk_tree(execute, strata=prog["strata"], max_leaves=MAX_LEAVES):
+        # one attempt makes at most one choice per node and per soft requirement: a longer
+        # path means more than m attempts were made
+        per_attempt = len(prog["nodes"]) * 3 + len(prog["stmts"]) + 8
+        for out, p, rng in seams.walk_tree(execute, strata=prog["strata"], max_leaves=MAX_LEAVES,
+                                           max_depth=(m + 1) * per_attempt):
             leaves += 1
             side += rng.side_calls
             nonexact = nonexact or rng.nonexact
@@ -127,6 +149,17 @@ def run(tape):
             ilaw, leaves, side, nonexact = impl_law(prog, scenario, m)
         except seams.TreeTooLarge:
             stats[f"skipped:tree_too_large:m{m}"] = 1
+            break
+        except seams.TreeTooDeep as e:
+            violations.append({"clause": "more-attempts-than-maxIterations", "detail": {
+                "m": m, "program": src,
+                "what": f"one execution of _generateInner(maxIterations={m}) made {e.args[0]} random choices, more than "
+                        f"{m} attempts of this program can make"}})
+            break
+        except GenerationHang:
+            violations.append({"clause": "generation-does-not-terminate", "detail": {
+                "m": m, "seconds": HANG_SECONDS, "program": src,
+                "what": f"_generateInner(maxIterations={m}) still running after {HANG_SECONDS} s in one leaf of the choice tree"}})
             break
         leaves_total += leaves
         stats["leaves"] = stats.get("leaves", 0) + leaves
